@@ -740,3 +740,43 @@ func absDiff(a, b uint64) uint64 {
 
 	return b - a
 }
+
+// SelfTest checks the reference against published vectors (RFC 5869 A.1, RFC 8448 Section 3,
+// RFC 3610 packet vector #1). Called by every C10 run and by the package's own test.
+func SelfTest() error {
+	unhex := func(s string) []byte {
+		b := make([]byte, len(s)/2)
+		for i := range b {
+			fmt.Sscanf(s[2*i:2*i+2], "%02x", &b[i])
+		}
+
+		return b
+	}
+	prk := HKDFExtract(sha256.New, unhex("000102030405060708090a0b0c"), bytes.Repeat([]byte{0x0b}, 22))
+	if !bytes.Equal(prk, unhex("077709362c2e32df0ddc3f0dc47bba6390b6c73bb50f9c3122ec844ad7c2b3e5")) {
+		return errors.New("RFC 5869 PRK mismatch")
+	}
+	okm := HKDFExpand(sha256.New, prk, unhex("f0f1f2f3f4f5f6f7f8f9"), 42)
+	if !bytes.Equal(okm, unhex("3cb25f25faacd57a90434f64d0362f2a2d2d0a90cf1a5a4c5db02d56ecc4c5bf34007208d5b887185865")) {
+		return errors.New("RFC 5869 OKM mismatch")
+	}
+	early := HKDFExtract(sha256.New, nil, make([]byte, 32))
+	if !bytes.Equal(early, unhex("33ad0a1c607ec03b09e6cd9893680ce210adf300aa1f2660e1b22e10f170f92a")) {
+		return errors.New("RFC 8448 early secret mismatch")
+	}
+	if !bytes.Equal(DeriveSecret(sha256.New, "tls13 ", early, "derived", nil), unhex("6f2615a108c702c5678f54fc9dbab69716c076189c48250cebeac3576c3611ba")) {
+		return errors.New("RFC 8448 derived secret mismatch")
+	}
+	b, _ := aes.NewCipher(unhex("c0c1c2c3c4c5c6c7c8c9cacbcccdcecf"))
+	c, err := NewCCM(b, 8, 13)
+	if err != nil {
+		return err
+	}
+	pkt := unhex("000102030405060708090a0b0c0d0e0f101112131415161718191a1b1c1d1e")
+	out := c.Seal(nil, unhex("00000003020100a0a1a2a3a4a5"), pkt[8:], pkt[:8])
+	if !bytes.Equal(out, unhex("588c979a61c663d2f066d0c2c0f989806d5f6b61dac38417e8d12cfdf926e0")) {
+		return errors.New("RFC 3610 vector #1 mismatch")
+	}
+
+	return nil
+}
